@@ -115,6 +115,32 @@ class C17Bounded(Bounded):
                                 fail("spurious-error", f"{pos} value {v!r} with pipeline {pname}: {type(err).__name__}: {err} although every placeholder is configured", [pos, v, pname])
                     if len(samples) < 4 and nph == 2 and pname == "values_all" and out:
                         samples.append({"position": pos, "value": v, "query": out[0]})
+        # history on one backend object: the variable table in force at the time of a conversion decides (changed, removed, pipeline used elsewhere in between)
+        hrule = "title: t\nlogsource:\n  category: c\ndetection:\n  s:\n    f|expand: 'x%a%y'\n    '|re|expand': 'k%a%'\n  condition: s\n"
+        for step_kind in ("changed", "removed", "merged-elsewhere"):
+            ev += 1
+            nontriv += 1
+            pl = ProcessingPipeline.from_dict({"name": "h", "vars": {"a": ["A1", "A2"]}, "transformations": [{"type": "value_placeholders"}]})
+            b = TextQueryTestBackend(pl)
+            try:
+                first = b.convert(SigmaCollection.from_yaml(hrule))[0]
+                if step_kind == "changed":
+                    pl.vars["a"] = ["B1"]
+                elif step_kind == "removed":
+                    del pl.vars["a"]
+                else:
+                    TextQueryTestBackend(ProcessingPipeline.from_dict({"name": "o", "vars": {"a": ["C1"]}, "transformations": []}) + pl).convert(SigmaCollection.from_yaml(hrule))
+                try:
+                    second = b.convert(SigmaCollection.from_yaml(hrule))[0]
+                except SigmaError as e:
+                    second = type(e).__name__
+            except Exception as e:
+                fail("history", f"history {step_kind}: {type(e).__name__}: {e}", [step_kind])
+                continue
+            ok1 = "xA1y" in first and "xA2y" in first
+            ok2 = {"changed": "xB1y" in second and "A1" not in second, "removed": second in ("SigmaValueError", "SigmaPlaceholderError"), "merged-elsewhere": second == first}[step_kind]
+            if not (ok1 and ok2):
+                fail("history", f"one backend, two conversions, variable table {step_kind} in between: first query {first!r}, second {second!r}", [step_kind])
         return {"evaluations": ev, "distinct_nontrivial": nontriv, "failures": fails, "failure_counts": seen,
-                "bound": f"{len(vals)} values (<= 3 pieces over {pieces}) x 6 positions (string, keyword, contains, regular expression without / followed by / surrounded by flag modifiers) x {len(pipes)} pipelines", "rule": "distinct (position, value, pipeline); non-trivial = at least one placeholder",
+                "bound": f"three histories on one backend object (variables changed / removed / pipeline merged elsewhere between two conversions); {len(vals)} values (<= 3 pieces over {pieces}) x 6 positions (string, keyword, contains, regular expression without / followed by / surrounded by flag modifiers) x {len(pipes)} pipelines", "rule": "distinct (position, value, pipeline); non-trivial = at least one placeholder",
                 "samples": samples, "exhaustive": tier != "quick"}
